@@ -522,6 +522,7 @@ func (x *Exec) applyContract(fr *Frame, st *State, c *Contract, sig *types.Signa
 	}
 	env.old, env.oldTop = pre, preTop
 	x.bindResults(env, c, sig, rets)
+	pcBeforeEnsures := append([]*Term(nil), st.pc...)
 	var keep []string
 	restrict := false
 	if x.c != nil && x.c.Opaque != nil {
@@ -545,6 +546,12 @@ func (x *Exec) applyContract(fr *Frame, st *State, c *Contract, sig *types.Signa
 			continue // a clause about the callee's own calls (failed / called / result): checked in its body, not visible to callers
 		}
 		st.assume(x.evalClause(env, c, "ensures "+en.Label, en.Expr))
+	}
+	// opt-in audit (GOVC_CONSISTENT_CALLS=1): assuming a callee's postconditions must not close a reachable path - a
+	// contract whose clauses contradict each other for some input would make everything after the call vacuous
+	if os.Getenv("GOVC_CONSISTENT_CALLS") != "" && len(st.pc) > len(pcBeforeEnsures) && fr.fn == x.fn {
+		x.obls = append(x.obls, &Obligation{Fn: x.key, Kind: fmt.Sprintf("%sconsistent.call.%s@%d", fr.prefix, calleeShort(c.Key), ord), Props: x.c.Props,
+			PC0: pcBeforeEnsures, PC: append([]*Term(nil), st.pc...), Goal: False, PathID: x.pathID, Inputs: x.inputs})
 	}
 	return rets
 }
